@@ -19,6 +19,13 @@ CLAIMED = {
         "DESIGN.md section 3, C05; engines E3, E10, E6, E9",
         "static analysis: interprocedural exception-escape, CFG must-pass-through on short-input tests, constant folding of the key table",
     ),
+    "C15": _entry(
+        "Static analysis decides the emulator's error discipline (no modelled exception escapes addstr/addbyte/resize, CSI dispatch resolved through the table), "
+        "the CSI table's internal consistency, the clamped single-writer discipline of cursor and scrolling region, shape-preserving pairing of grid edits, loop progress and container-kind misuse. "
+        "Index-bounds safety of each cell access, VT100 fidelity and scrollback order are value/behaviour properties and are not decided (level 'other').",
+        "DESIGN.md section 3, C15; engines E3, E9, E11, E6, E10",
+        "static analysis: interprocedural exception-escape with table-resolved dispatch, table arity check, single-writer and pairing rules on the AST/CFG",
+    ),
     "C18": _entry(
         "Static analysis decides error discipline of AttrSpec (only AttrSpecError escapes construction), agreement of the 256/88-colour sibling implementations and tables, "
         "hash/eq state agreement and the shape of the folded colour tables. Nearest-colour values and round-trip idempotence are value-level and not decided (level 'other').",
